@@ -454,6 +454,13 @@ pub fn fam7(l: L) -> Vec<char> {
     vec![s.v, s.c, '₂', '１', '٣', ' ']
 }
 
+/// F9: control characters other than NUL inside and between words (TAB, ESC, NEL): separators for the tokeniser,
+/// part of the stored title for everything that prints it
+pub fn fam9(l: L) -> Vec<char> {
+    let s = sym(l);
+    vec![s.v, s.c, '\t', '\u{1b}', '\u{85}']
+}
+
 /// F8: Latin-1 letters and numerics that sit among the Latin-1 punctuation (ª µ º ² ½) next to real punctuation (¡ «)
 pub fn fam8(l: L) -> Vec<char> {
     let s = sym(l);
